@@ -19,8 +19,8 @@ from seeded import sh, scratch, run_tests, ROOT  # noqa: E402
 SRC = "/tmp/lena-ben"
 
 
-def do_import(b):
-    src = os.path.join(SRC, "out-" + b)
+def do_import(b, srcdir=None):
+    src = os.path.join(srcdir or SRC, "out-" + b)
     n = 0
     for k in range(1, 40):
         patch, meta = os.path.join(src, "patch_%d.diff" % k), os.path.join(src, "meta_%d.json" % k)
@@ -82,7 +82,7 @@ def do_run(name, tier="quick"):
 def main():
     a = sys.argv[1:]
     if a[0] == "import":
-        return do_import(a[1])
+        return do_import(a[1], a[a.index("--src") + 1] if "--src" in a else None)
     if a[0] == "run":
         do_run(a[1], a[a.index("--tier") + 1] if "--tier" in a else "quick")
         return 0
